@@ -103,6 +103,8 @@ type Summaries struct {
 	GetBytesLen *ssa.Function
 	// FrameMin: in (*Writer).End the frame holds at least 5 bytes (INV-frame, established by C02)
 	FrameEnd *ssa.Function
+	// FrameEndSteps: private steps of End (only caller: End) that work on the same open frame
+	FrameEndSteps map[*ssa.Function]bool
 	// MaxPositive: Reader.MaxMessageSize >= 1 (INV-max: stored only by NewReader after defaulting)
 	MaxPositive bool
 }
@@ -548,8 +550,8 @@ func (l *Lin) addCond(s *system, cond ssa.Value, truth bool) {
 		if u, ok := cond.(*ssa.UnOp); ok && u.Op == token.NOT {
 			l.addCond(s, u.X, !truth)
 		}
-		if call, ok := cond.(*ssa.Call); ok && truth {
-			for _, f := range l.PredicateFacts(call) {
+		if call, ok := cond.(*ssa.Call); ok {
+			for _, f := range l.predicateFacts(call, truth) {
 				s.add(f)
 			}
 		}
@@ -781,7 +783,7 @@ func (l *Lin) axioms(s *system, t Term, at ssa.Instruction) {
 				s.add(fact{at2, t, -off, "max"})
 			}
 		case callee != nil && callee.Name() == "Bytes" && MethodIs(callee, "bytes", "Buffer", "Bytes") && t.K == TLen:
-			if l.Summary != nil && l.Summary.FrameEnd == l.Fn {
+			if l.Summary != nil && (l.Summary.FrameEnd == l.Fn || l.Summary.FrameEndSteps[l.Fn]) {
 				s.add(fact{Zero, t, -5, "INV-frame: an open frame holds its 5-byte header"})
 			}
 		}
@@ -1242,7 +1244,11 @@ func (l *Lin) memTerm(k TermKind, m *MemVal) Term {
 // comparisons, translated into the caller's terms, that hold whenever the helper returns true. Only
 // comparisons over the helper's parameters, constants and fields of pointer parameters that neither the
 // helper nor the caller modifies are translated.
-func (l *Lin) PredicateFacts(call *ssa.Call) []fact {
+func (l *Lin) PredicateFacts(call *ssa.Call) []fact { return l.predicateFacts(call, true) }
+
+// predicateFacts: the comparisons that hold whenever the helper returns `want`. For want == false this is the dual
+// reading: `return a || b` answers false only when both a and b are false (outOfBounds(size) == false).
+func (l *Lin) predicateFacts(call *ssa.Call, want bool) []fact {
 	callee := StaticCallee(call)
 	if callee == nil || !l.P.InScope(callee) || len(callee.Blocks) == 0 || callee.Signature.Results().Len() != 1 {
 		return nil
@@ -1288,7 +1294,7 @@ func (l *Lin) PredicateFacts(call *ssa.Call) []fact {
 		case *ssa.Phi:
 			nTrue := 0
 			for i, e := range x.Edges {
-				if c, ok := e.(*ssa.Const); ok && c.Value != nil && c.Value.ExactString() == "false" {
+				if c, ok := e.(*ssa.Const); ok && c.Value != nil && c.Value.ExactString() == fmt.Sprint(!want) {
 					continue
 				}
 				nTrue++
@@ -1305,13 +1311,13 @@ func (l *Lin) PredicateFacts(call *ssa.Call) []fact {
 					}
 				}
 				if _, isC := e.(*ssa.Const); !isC {
-					conds = append(conds, cond{e, true})
+					conds = append(conds, cond{e, want})
 				}
 			}
 			return nTrue == 1
 		case *ssa.BinOp:
 			dominating(at)
-			conds = append(conds, cond{x, true})
+			conds = append(conds, cond{x, want})
 			return true
 		}
 		return false
@@ -1374,7 +1380,7 @@ func (l *Lin) PredicateFacts(call *ssa.Call) []fact {
 				xt, xo, ok1 := translate(tmp.terms[i], 0)
 				yt, yo, ok2 := translate(tmp.terms[j], 0)
 				if ok1 && ok2 {
-					out = append(out, fact{xt, yt, tmp.d[i][j] - xo + yo, "predicate " + FuncName(callee) + " returned true"})
+					out = append(out, fact{xt, yt, tmp.d[i][j] - xo + yo, "predicate " + FuncName(callee) + " returned " + fmt.Sprint(want)})
 				}
 			}
 		}
@@ -1384,9 +1390,14 @@ func (l *Lin) PredicateFacts(call *ssa.Call) []fact {
 
 // PredicateFactStrings renders PredicateFacts in the canonical "x - y <= k" form.
 func (l *Lin) PredicateFactStrings(call *ssa.Call) []string {
+	return l.PredicateFactStringsWhen(call, true)
+}
+
+// PredicateFactStringsWhen renders the facts that hold whenever the helper returns `want`.
+func (l *Lin) PredicateFactStringsWhen(call *ssa.Call, want bool) []string {
 	var out []string
 	seen := map[string]bool{}
-	for _, f := range l.PredicateFacts(call) {
+	for _, f := range l.predicateFacts(call, want) {
 		str := fmt.Sprintf("%s - %s <= %d", f.x, f.y, f.k)
 		if !seen[str] {
 			seen[str] = true
